@@ -6,6 +6,24 @@ VERIF = Path(__file__).resolve().parent.parent
 ALL = [f"C{i:02d}" for i in range(1, 20)]
 
 CLAIMED = {
+    "C16": dict(
+        text="Hierarchies (depth 3, shared / distinct sub-modules, internal nets at every level, ports passed through, scalar and bus signals, "
+             "primitive and external leaves below and at the top, top-level signals named like flatten's ':'-joined internal-net names) are "
+             "flattened with hdl21.flatten and exported. TLC (Trace_Flatten): a flattenable design (Valid!Status = valid, plain-signal "
+             "connections) must not be rejected; the flat module holds exactly one primitive/external instance per leaf device "
+             "(Design!LeafTable), keeps the ports, and induces the same partition of leaf-terminal and port bits as Design!Denote of the source.",
+        note="Trusted: splitting flat instance names at ':' into paths (harness/props/c16.py), builder, projector, TLC. Designs whose own names "
+             "contain ':' may be refused. Quick samples 500 of the 1,080 hierarchies.",
+        ref="6 C16", technique="TLA+ denotational oracle (Design/Package) on flattened modules, decided by TLC"),
+    "C19": dict(
+        text="api/Builtins.tla writes the documented Series / Wrapper topologies as source designs (n units, unit 0's first and unit n-1's "
+             "second series port are the module's, unit k's second joins unit k+1's first on private net i[k], every other port parallel; "
+             "nser = 1 and Wrapper: one inner instance, every signal- and bundle-valued port passed through). For n in 1..N x 7 unit cells "
+             "(2-4 port primitives, external modules incl. a bus port, modules with scalar/bus/bundle ports) x every ordered pair of distinct "
+             "ports x by name / by Signal, plus MosStack and Wrapper, the call is made and exported; TLC (Trace_Builtins) requires "
+             "PkgDenote(package) = Denote(expected design) and equal leaf tables, or a raise for non-scalar series ports / bundle-port units.",
+        note="Trusted: driver, builder, projector, TLC. N = 6 quick, 16 thorough; exhaustive over that family.",
+        ref="6 C19", technique="TLA+ topology spec (Builtins) + denotational comparison by TLC"),
     "C11": dict(
         text="api/RoundTrip.tla states component-wise equality of two packages (module list and order, ports with direction and order, signals, "
              "instances with reference, parameter names and values, connection ports and targets incl. slices and concatenations, external "
